@@ -273,6 +273,24 @@ func init() {
 					s.call(c, r.name, fmt.Sprintf("addr=%s matching-digest data=%d", ad.name, len(data)), func() error { return r.f(m) })
 				}
 			}
+			// a live challenge exists for the address (its owner asked for one): data that is a prefix of it, the
+			// challenge plus extra bytes, unsigned and signed
+			if r.name == "notary.Waiting" || r.name == "notary.TransactionsInDAG" {
+				ch := s.prov.ProvideData(s.client.Address())
+				for _, data := range [][]byte{ch[:1], ch[:len(ch)-1], append(append([]byte{}, ch...), 0), append(append([]byte{}, ch...), make([]byte, 32)...), append(append([]byte{}, ch...), make([]byte, 4096)...)} {
+					d := sha256.Sum256(data)
+					for _, signed := range []bool{false, true} {
+						m := &pb.SignedHash{Address: s.client.Address(), Data: data, Hash: d[:], Signature: make([]byte, 64)}
+						if signed {
+							m = s.signed(data)
+						}
+						m = roundTrip(m, &pb.SignedHash{})
+						s.flash.RemoveAddress(s.client.Address())
+						r := r
+						s.call(c, r.name, fmt.Sprintf("live-challenge data-len=%d (challenge %d) signed=%v", len(data), len(ch), signed), func() error { return r.f(m) })
+					}
+				}
+			}
 			// correctly signed requests (pass verification, reach the code behind it)
 			for _, n := range []int{0, 1, 31, 32, 33, 128} {
 				data := make([]byte, n)
